@@ -5,6 +5,8 @@
 (*   check --StopCheck--> batching --MakeBatches--> stepping               *)
 (*         --TrainStep x nb--> (validate --ValBatches-->) check ... done   *)
 (*         --Return--> returned                                            *)
+(* and, separately, evaluation in batches (EvalBatches / EvalStep /        *)
+(* EvalReturn: map_loss_in_batches, map_plus_loss_in_batches, evaluate).   *)
 (*                                                                         *)
 (* One action per observable step of the code: the call of the user's      *)
 (* stopping condition, the call of get_batches, each train_step, the       *)
@@ -156,6 +158,53 @@ Return(ev) ==
   /\ AllTrue(ReturnGuards(ev))
   /\ phase' = "returned"
   /\ UNCHANGED <<cfg, epoch, best, bestModel, since, stopped, version, step, batches, bank, hist>>
+
+(* ---------------- evaluation in batches (map_loss_in_batches / map_plus_loss_in_batches) ---- *)
+(* A stand-alone machine on the same variables: traces start at phase "evalbatching" (cfg.start).            *)
+(*   evalbatching --EvalBatches--> evaluating --EvalStep x nb--> evaluating --EvalReturn--> evaldone         *)
+(* cfg : [L, B, keyed, withmap].  `hist` collects the per-batch losses.  The harness' map_and_loss returns,   *)
+(* per device, n_devices * (sum of the sample indices of the shard), so the device mean that `evaluate`       *)
+(* takes is the sum of the batch's indices; the model is the identity on index-carrying data.                  *)
+RECURSIVE SumH(_)
+SumH(h) == IF h = <<>> THEN 0 ELSE h[1] + SumH(Tail(h))
+RECURSIVE FlatB(_)
+FlatB(bs) == IF bs = <<>> THEN <<>> ELSE bs[1] \o FlatB(Tail(bs))
+EvalBatchesGuards(ev) == <<<<"EvalBatches: evaluation starts by batching the data set", phase = "evalbatching">>>>
+                         \o BatchGuards(ev, cfg.L, cfg.B, cfg.keyed)
+EvalBatches(ev) ==
+  /\ AllTrue(EvalBatchesGuards(ev))
+  /\ batches' = [b \in 1..NB(cfg) |-> BatchOf(ev, b)]
+  /\ step' = 0 /\ hist' = <<>> /\ phase' = "evaluating"
+  /\ UNCHANGED <<cfg, epoch, best, bestModel, since, stopped, version, bank>>
+EvalStepGuards(ev) == <<
+   <<"EvalStep: one evaluation per batch, in order", phase = "evaluating" /\ step < NB(cfg)>>,
+   <<"EvalStep: the inputs are the next batch, for every tensor type",
+        (phase = "evaluating" /\ step < NB(cfg)) => \A i \in 1..Len(ev.x) : ev.x[i] = batches[step + 1]>>,
+   <<"EvalStep: targets are aligned with inputs (same indices, same order, every type)",
+        (phase = "evaluating" /\ step < NB(cfg)) => \A i \in 1..Len(ev.y) : ev.y[i] = batches[step + 1]>>,
+   <<"EvalStep: the model evaluated is the model passed in", ev.vin = version>>,
+   <<"EvalStep: the model runs in inference mode", ev.inference>>,
+   <<"EvalStep: the batch loss is the mean over devices of the per-device losses",
+        (phase = "evaluating" /\ step < NB(cfg)) => ev.loss = SumH(batches[step + 1])>> >>
+EvalStep(ev) ==
+  /\ AllTrue(EvalStepGuards(ev))
+  /\ step' = step + 1 /\ hist' = Append(hist, ev.loss)
+  /\ UNCHANGED <<cfg, epoch, phase, best, bestModel, since, stopped, version, batches, bank>>
+EvalReturnGuards(ev) == <<
+   <<"EvalReturn: every batch was evaluated exactly once", phase = "evaluating" /\ step = NB(cfg)>>,
+   <<"EvalReturn: the returned loss is the mean of the per-batch losses", ev.lossTimesNB = SumH(hist)>>,
+   <<"EvalReturn: the mapped output lists the model's outputs in batch order, aligned for every tensor type",
+        cfg.withmap => \A i \in 1..Len(ev.map) : ev.map[i] = FlatB(batches)>> >>
+EvalReturn(ev) ==
+  /\ AllTrue(EvalReturnGuards(ev))
+  /\ phase' = "evaldone"
+  /\ UNCHANGED <<cfg, epoch, best, bestModel, since, stopped, version, step, batches, bank, hist>>
+(* design property: what an accepted evaluation has computed *)
+EvalInv ==
+  phase = "evaldone" =>
+     /\ Len(hist) = NB(cfg) /\ Len(FlatB(batches)) = NB(cfg) * cfg.B
+     /\ Cardinality(Range(FlatB(batches))) = NB(cfg) * cfg.B                 \* every evaluated sample exactly once
+     /\ SumH(hist) = SumH(FlatB(batches))                                    \* nothing but those samples enters the loss
 
 (* ---------------- properties of the design (checked by MC_TrainLoop) ----------------------- *)
 RECURSIVE BestAt(_, _, _)
